@@ -262,7 +262,10 @@ CHECKS = {
               'for the largest common sub-graph without symmetry returns only common induced sub-graphs of one size, none larger '
               'exists, and every one of that size is returned (levels = all node sets of a size, pigeon-hole against the graph size). '
               'Not proved: analyze_symmetry itself (its output is certified per pattern) and the shrinking search WITH symmetry '
-              '(judged per input by the proved checker).'),
+              '(judged per input by the proved checker). Beyond the size of the exhaustive judges, cubic graphs of 8-12 nodes are '
+              'matched against a renumbered copy of themselves: the matcher must answer within a time limit and return exactly '
+              'one representative that is an isomorphism (all isomorphisms onto a copy form one symmetry class): a Python-side '
+              'check, which found F31 (repaired) and F32 (known finding: no isomorphism returned for many regular graphs).'),
         design_ref='DESIGN.md section 5, C06',
         note=('Trusted: Coq kernel + vm_compute; networkx only as a graph container; the reference enumeration is exponential '
               '(patterns <= 6 nodes, graphs <= 7 nodes in the correspondence).'),
